@@ -183,6 +183,23 @@ func Emit(c *ir.Config, d Delivery) (yaml string, params []string) {
 	if c.DurationType != nil {
 		secs = append(secs, yamlSection{"duration_type", "duration_type:\n" + schemaTypeYAML(c.DurationType)})
 	}
+	if len(c.SchemaTypes) > 0 {
+		var ks []string
+		for k := range c.SchemaTypes {
+			ks = append(ks, k)
+		}
+		sort.Strings(ks)
+		ks = shuffled(d.Shuffle, ks)
+		var b strings.Builder
+		for _, k := range ks {
+			st := c.SchemaTypes[k]
+			fmt.Fprintf(&b, "  %s:\n", q(k))
+			for _, l := range strings.Split(strings.TrimRight(schemaTypeYAML(&st), "\n"), "\n") {
+				b.WriteString("  " + l + "\n")
+			}
+		}
+		secs = append(secs, yamlSection{"schema_types", "schema_types:\n" + b.String()})
+	}
 	if len(c.InjectedFields) > 0 {
 		var b strings.Builder
 		for _, k := range mapKeys(d.Shuffle, c.InjectedFields) {
